@@ -51,6 +51,12 @@ fn pending_raw(sc: &Scen, peer: &str) -> RawResults {
 
 /// The fixed victims. Each one is a situation in which an honest run succeeds and changes the peer's data.
 pub fn victim(name: &str) -> Option<Victim> {
+    // a tree on which even the scripted honest history cannot be driven (e.g. every data is rejected) must not
+    // take the harness down
+    std::panic::catch_unwind(|| victim_inner(name)).ok().flatten()
+}
+
+fn victim_inner(name: &str) -> Option<Victim> {
     let mk = |name: &'static str, sc: Scen, peer: &str, prev: Vec<u8>, cur: Vec<u8>, results: RawResults| {
         let p = sc.pidx(peer);
         Some(Victim { name, sc, peer: p, prev, cur, results })
@@ -249,7 +255,7 @@ fn digest_eq_modulo(a: &Value, b: &Value) -> Option<String> {
 pub fn c21_case(case: &Value) -> Found {
     let mut out: Found = vec![];
     let Some(v) = victim(case["victim"].as_str().unwrap_or("")) else {
-        return vec![("MACHINERY/unknown-victim".into(), case.to_string())];
+        return vec![("C21/honest-history-breaks-down".into(), format!("the scripted honest history {} cannot be driven on this tree: some honest run does not forward the particle or hand out its requests", case["victim"]))];
     };
     let lim = Limits::default();
     let honest = match v.run(&v.prev, &v.cur, &lim) {
